@@ -2039,6 +2039,20 @@ def run_bus(case):
                     return ent[2]
             return None
 
+        def lookup(i, x, first):
+            """The simulated client of connection i reads the cookie announced in its challenge and prepares its answer."""
+            x['cookie'] = cookie_of(x, x['cid'])
+            if x['cookie'] is None:
+                findings.append(('cookie-right-response-rejected', 'the cookie id announced to connection %d (%r) is not in '
+                                 'the keyring file of %r %s' % (i, x['cid'], x['user'], 'when the client answers its pending '
+                                                                'challenge' if cds[i].get('lazy') else 'right after the challenge'),
+                                 hx(first), 'an entry with the announced id'))
+                return
+            digest = binascii.hexlify(hashlib.sha1(x['chal'] + b':' + CC + b':' + x['cookie']).digest())
+            x['resp'] = CC + b' ' + digest
+            th = x['chal'] + b':' + CC + b':' + x['cookie']
+            env.sha[th] = hashlib.sha1(th).digest()
+
         for tok in case['events'].split():
             op = tok[0]
             head, _, arg = tok[1:].partition(':')
@@ -2071,26 +2085,30 @@ def run_bus(case):
                     x['claims_other'] = True
             elif op == 'a':
                 x['pending'], x['resp'] = False, None
+                nh = len(x['tr'].handed)
                 out = line(i, b'AUTH DBUS_COOKIE_SHA1 ' + binascii.hexlify((x['user'] or '').encode('ascii')))
                 first = out.split(b'\r\n')[0]
+                home = env.home_of_user(x['user'])
+                hs = x['tr'].handed[nh:]
+                if (home is not None and spec['dirs'].get(home, 'absent') in ('absent', 'good') and len(hs) == 1
+                        and hs[0]['outcomes'] and hs[0]['outcomes'][-1] == (b'DBUS_COOKIE_SHA1', 'R')):
+                    # the mechanism was consulted for a user with a passwd entry and a usable keyring directory
+                    findings.append(('cookie-client-not-challenged', 'connection %d asked for DBUS_COOKIE_SHA1 as %r (passwd '
+                                     'entry, usable keyring directory) and the mechanism rejected it without a challenge: a '
+                                     'client holding the right cookie cannot present it' % (i, x['user']),
+                                     hx(first), 'DATA <context id challenge>'))
                 if first.startswith(b'DATA '):
                     try:
                         ctxn, cid, chal = binascii.unhexlify(first.split(b' ', 1)[1].strip()).split()
                     except Exception:
                         ctxn = cid = chal = None
                     x['pending'], x['ticks'] = True, 0
-                    x['chal'], x['cid'] = chal, cid
-                    x['cookie'] = cookie_of(x, cid) if cid is not None else None
-                    if x['cookie'] is None:
-                        findings.append(('cookie-right-response-rejected', 'the cookie id announced to connection %d (%r) is '
-                                         'not in the keyring file of %r' % (i, cid, x['user']), hx(first),
-                                         'an entry with the announced id'))
-                    else:
-                        digest = binascii.hexlify(hashlib.sha1(chal + b':' + CC + b':' + x['cookie']).digest())
-                        x['resp'] = CC + b' ' + digest
-                        th = chal + b':' + CC + b':' + x['cookie']
-                        env.sha[th] = hashlib.sha1(th).digest()
+                    x['chal'], x['cid'], x['cookie'] = chal, cid, None
+                    if not cds[i].get('lazy'):
+                        lookup(i, x, first)
             elif op in 'rw':
+                if x['pending'] and cds[i].get('lazy') and x.get('cid') is not None:
+                    lookup(i, x, b'')           # this client opens the keyring only now that it answers
                 was_pending, resp = x['pending'], x['resp']
                 x['pending'] = False
                 if op == 'r' or resp is None:
@@ -2149,10 +2167,10 @@ def run_bus(case):
             conns.append(x)
         if real:
             fs = env.fs_obs()
-            impl_line = ' | '.join(fmt_obs(x['obs']) for x in conns) + ' || files=%s dirs=%s rnd=%d' % (fs[0], fs[1], env.calls)
+            impl_line = (' | '.join(fmt_obs(x['obs']) for x in conns) or '-') + ' || files=%s dirs=%s rnd=%d' % (fs[0], fs[1], env.calls)
             model_line = 'M %s %s %s' % (hx(GUID), env.model_env(), ' '.join(mev))
         else:
-            impl_line = ' | '.join(fmt_obs(x['obs'], extra=('cancels', 'steps')) for x in conns)
+            impl_line = ' | '.join(fmt_obs(x['obs'], extra=('cancels', 'steps')) for x in conns) or '-'
             scripts = '/'.join((','.join(s.replace(':', '') for s in cds[x['index']].get('script') or []) or '-') for x in conns)
             model_line = 'N %s %s %s' % (hx(GUID), scripts, ' '.join(mev))
         if any(cds[i].get('offer') for i in sess) or planted:
@@ -2407,7 +2425,8 @@ def bus_cookie_histories():
                     continue                       # every history with no file and the non-ascending one; the rest thinned
                 yield {'kind': 'bus', 'mode': 'plain' if k % 4 == 0 else 'real',
                        'env': _real_spec(linux=False, files=pre, frac=bool(k % 2)),
-                       'conns': [{'creds': None, 'user': users[i % len(users)]} for i in range(n)], 'events': hist}
+                       'conns': [{'creds': None, 'user': users[i % len(users)], 'lazy': bool((k + i) % 2)} for i in range(n)],
+                       'events': hist}
 
 
 def gen_bus_cookie_random(rng):
@@ -2454,7 +2473,8 @@ def gen_bus_cookie_random(rng):
         pre = [[cid, rng.choice(AGES), '%048x' % rng.getrandbits(190)] for cid in ids]
     return {'kind': 'bus', 'mode': rng.choice(['real', 'real', 'plain']),
             'env': _real_spec(linux=rng.random() < 0.3, h1=rng.choice(['absent', 'good']), files=pre, frac=rng.random() < 0.5),
-            'conns': [{'creds': None, 'user': users[i % len(users)]} for i in range(n)], 'events': ' '.join(ev)}
+            'conns': [{'creds': None, 'user': users[i % len(users)], 'lazy': rng.random() < 0.5} for i in range(n)],
+            'events': ' '.join(ev)}
 
 
 # ===================================================================== corpus / replay / run
